@@ -405,6 +405,29 @@ def _ctor_copies(chk: Check) -> int:
                    "constructor argument '%s' of %s is stored or shared without being copied "
                    "(%s): separately constructed nodes would share it"
                    % (pn, c.qualname, unparse(getattr(bad[0], "_parent", bad[0]))[:60] if bad else ""), 2)
+    # a node is never copied shallowly: the copy would share every mutable attribute value (the
+    # bytes of an interval, the attribute sets, the child collections) and the UUID of the original
+    for c in repo.classes.values():
+        if not (c.is_subclass_of(node) or c is node or
+                (symexpr is not None and (c is symexpr or c.is_subclass_of(symexpr)))):
+            continue
+        for f in c.methods.values():
+            me = f.self_name
+            for x in walk_no_nested(f.node):
+                shallow = False
+                if isinstance(x, ast.Call) and (dotted(x.func) or ("",))[-1] == "copy" and \
+                        (dotted(x.func) or ("",))[0] in ("copy",) and len(x.args) == 1 and \
+                        attr_path(x.args[0]) == (me,):
+                    shallow = True
+                if isinstance(x, ast.Attribute) and x.attr == "__dict__" and attr_path(x.value) == (me,):
+                    par = getattr(x, "_parent", None)
+                    shallow = isinstance(par, ast.Call) or (isinstance(par, ast.Attribute) and par.attr in ("copy", "items", "update"))
+                if shallow:
+                    chk.saw(f)
+                    chk.ob("R04.5", "%s:shallow-copy-of-node" % f.qualname, False, f.loc(x),
+                           "%s makes a shallow copy of the node (%s): the copy shares the original's mutable "
+                           "attribute values (stored bytes, sets, child collections) and its UUID"
+                           % (f.qualname, unparse(x)[:40]), 1)
     return n
 
 
